@@ -3,7 +3,7 @@ from . import _hub
 
 CONFIG = dict(
     modules=["SigModel.Props.C05"],
-    theorems=[],
+    theorems=["SigModel.Hub.reachable_inv", "SigModel.Hub.C05_routing", "SigModel.Hub.C05_addressed_once_not_sender", "SigModel.Hub.C05_control_needs_permission", "SigModel.Hub.publish_eq_addressed", "SigModel.Hub.route_listeners"],
     generated=["Hub"],
     harness=_hub.HARNESS,
     stats=_hub.stats,
@@ -15,7 +15,7 @@ CONFIG = dict(
 )
 
 MANIFEST = dict(
-    text="placeholder",
-    note="placeholder",
+    text="Lean 4 theorem C05_routing: in every reachable state of the hub model (every op sequence) and for every message or control message with any of the four recipient types, any payload and any target id, the messages written to connections are — as a multiset — exactly one copy per addressed session that has a connection (spec `addressed`, written from the statement: room = other members, call = other members in the call, user = all sessions of that user on the sender's backend or nobody for the own user, session = that session; virtual sessions via their internal client with rewritten recipient), each carrying the sender block built from the server's record; the addressed list is duplicate-free, never contains the sender and stays on the sender's backend. Tied to the code by the differential hub run (forged sender fields included) and a judge that recomputes `addressed` for every message op and compares it with what the real connections received.",
+    note='Synchronous routing layer: single hub, loopback bus, quiescence between ops; no gRPC peers, MCU or federation. Trusted: Lean kernel, extractor, harness (real websockets, fake Nextcloud backend) and comparison. Addressed sessions without a connection get the message queued (C06). MCU-typed payloads are C08/C09.',
     technique="Lean 4 proof (routing refinement over the hub model) + differential correspondence",
 )
